@@ -20,7 +20,7 @@ from .. import guards as G
 from .. import instrs as I
 from ..model import AnalysisError, EnumMember, Unknown, dotted, eval_module_table, src
 
-TECHNIQUE = "AST table evaluation + ordering/exhaustiveness/control-dependence rules over the assembler; abstract interpretation of small functions over an enumerated finite domain by the checker's own AST interpreter (static analysis)"
+TECHNIQUE = "AST table evaluation + ordering/exhaustiveness rules over the assembler; the scratch-register pass, label resolution, macro expansion and subroutine construction executed by the checker's own AST interpreter on enumerated programs (static analysis; abstract execution)"
 ENGINES = ["model", "instrs", "circuit"]
 EXPLANATION = (
     "Over lang/parsing/text.py: the four assembler passes run in the order that keeps label numbering valid; the literal-exception "
